@@ -3,8 +3,10 @@
 and the unedited full suite passes with it.  usage: confirm_mut.py <Cxx> <n> [--keep-as <name>]"""
 import json, os, re, shutil, subprocess, sys, time
 pid, n = sys.argv[1], sys.argv[2]
-wt = "/tmp/mut/%s" % pid
-out = "/tmp/mut/%s-out" % pid
+base = os.environ.get("MUTBASE", "/tmp/mut")
+off = int(os.environ.get("SEEDOFF", "0"))
+wt = "%s/%s" % (base, pid)
+out = "%s/%s-out" % (base, pid)
 env = dict(os.environ, GOFLAGS="-mod=mod", GOPROXY="off", GOSUMDB="off")
 def sh(cmd, cwd=wt, timeout=1500):
     p = subprocess.run(cmd, cwd=cwd, shell=True, env=env, stdout=subprocess.PIPE, stderr=subprocess.STDOUT, text=True, timeout=timeout)
@@ -38,12 +40,12 @@ res["confirmed"] = (res["demo_without_patch"] == "pass" and res["demo_with_patch
 json.dump(res, open("%s/confirm%s.json" % (out, n), "w"), indent=1)
 print(pid, n, "confirmed" if res["confirmed"] else "NOT CONFIRMED", res["demo_without_patch"], res["demo_with_patch"], res["suite_with_patch"])
 if res["confirmed"]:
-    sd = "/verif/seeded/%s-%s" % (pid, n)
+    sd = "/verif/seeded/%s-%d" % (pid, int(n) + off)
     os.makedirs(sd, exist_ok=True)
     shutil.copy("%s/patch%s.diff" % (out, n), sd + "/patch.diff")
     shutil.copy("%s/demo%s_test.go" % (out, n), sd + "/demo_test.go")
     shutil.copy("%s/notes%s.md" % (out, n), sd + "/notes.md")
     meta = dict(property=pid, source="independent sub-agent given only the property text", demo_placement=d, demo_tests=tests,
-                confirmed_by="lib/confirm_mut.py in scratch worktree /tmp/mut/%s: demo passes on the unchanged tree, fails with the patch; unedited full suite passes with the patch" % pid,
+                confirmed_by="lib/confirm_mut.py in scratch worktree %s: demo passes on the unchanged tree, fails with the patch; unedited full suite passes with the patch" % wt,
                 needs_to_manifest="see notes.md", detected_by=[])
     json.dump(meta, open(sd + "/meta.json", "w"), indent=1)
